@@ -662,6 +662,22 @@ class Type:
                 warnings.warn(msg)
             return
 
+        if inherited:
+            # A feature arriving from an ancestor must agree with a definition this type already has
+            own_feature = self._features.get(feature.name)
+            if own_feature is not None and own_feature != feature:
+                msg = f"For type [{self.name}] feature with name [{feature.name}] is already defined differently!"
+                raise ValueError(msg)
+        else:
+            # Check the subtypes before changing anything so that a conflict leaves the type system untouched
+            for subtype in self.descendants:
+                defined_feature = subtype._features.get(feature.name)
+                if defined_feature is not None and defined_feature != feature:
+                    msg = "Feature with name [{}] cannot be added to [{}] as subtype [{}] defines it differently!".format(
+                        feature.name, self.name, subtype.name
+                    )
+                    raise ValueError(msg)
+
         target[feature.name] = feature
 
         # Recreate constructor to incorporate new features
